@@ -598,7 +598,9 @@ async fn recv_once<R: Rd>(r: &mut R, d: &Dir, idx: u64, kind: u64, a: u64, b: u6
             }
             Err(e) => {
                 log.push([6, d.dir, idx, errno_of(&e), 0, 0, 3]);
-                true
+                // pool exhausted (e.g. a cancelled multishot still holds the
+                // buffers): nothing was consumed, the program goes on
+                e.kind() != io::ErrorKind::ResourceBusy
             }
         },
         _ => false,
